@@ -24,7 +24,8 @@ RECURSIVE Strip(_, _, _, _)
 Strip(s, i, inStr, esc) ==
   IF i > Len(s) THEN <<>>
   ELSE LET b == s[i] IN
-       IF inStr THEN <<b>> \o Strip(s, i + 1, esc \/ b # 34, ~esc /\ b = 92)
+       IF inStr /\ ~esc /\ R!PlainCh(b) THEN LET q == R!PlainEnd(s, i) IN SubSeq(s, i, q - 1) \o Strip(s, q, TRUE, FALSE)      \* a plain run in one piece
+       ELSE IF inStr THEN <<b>> \o Strip(s, i + 1, esc \/ b # 34, ~esc /\ b = 92)
        ELSE IF b \in {32, 10, 13, 9} THEN Strip(s, i + 1, FALSE, FALSE)
        ELSE <<b>> \o Strip(s, i + 1, b = 34, FALSE)
 NoWs(s) == Strip(s, 1, FALSE, FALSE) = s
@@ -34,7 +35,8 @@ RECURSIVE Shape(_, _, _, _, _)
 Shape(s, i, depth, inStr, esc) ==
   IF i > Len(s) THEN depth = 0
   ELSE LET b == s[i] IN
-       IF inStr THEN Shape(s, i + 1, depth, esc \/ b # 34, ~esc /\ b = 92)
+       IF inStr /\ ~esc /\ R!PlainCh(b) THEN Shape(s, R!PlainEnd(s, i), depth, TRUE, FALSE)
+       ELSE IF inStr THEN Shape(s, i + 1, depth, esc \/ b # 34, ~esc /\ b = 92)
        ELSE IF b = 10 THEN
             LET j == CHOOSE j \in i + 1..Len(s) + 1 : (j = Len(s) + 1 \/ s[j] # 32) /\ \A q \in i + 1..j - 1 : s[q] = 32
                 closes == At(s, j) \in {93, 125}
@@ -65,6 +67,8 @@ Check(r) ==
      ELSE IF r.one2 # r.one \/ r.con2 # r.con \/ r.pre2 # r.pre THEN Flag("MISMATCH", r.case, "feeding the output back does not reproduce it byte for byte")
      ELSE IF r.known /\ LET ref == R!StrictParseStream(r.in) IN ~ref.ok \/ ~SameSeq(ref.vals, one.vals)
           THEN Flag("MISMATCH", r.case, "a row does not denote the value that was output")
+     \* (rows with long strings - "long" in the record - are not stepped through the byte-by-byte machine: the gate above is everything)
+     ELSE IF "long" \in DOMAIN r THEN TRUE
      ELSE LET lv == LJ!ValuesOf(LJ!LexRun(r.in).out) IN
           IF r.known /\ (Len(lv) # n \/ \E i \in 1..n : RowText(r.one, one.spans[i]) # P!PrintValue(lv[i], "one-line", r.utf8)
                                                         \/ RowText(r.pre, pre.spans[i]) # P!PrintValue(lv[i], "pretty", r.utf8))
